@@ -93,7 +93,18 @@ def qasm_names(repo: Repo) -> Dict[str, Tuple[str, bool, ast.FunctionDef]]:
         f = oq.find(call_attr(v) or "")
         if not isinstance(f, ast.FunctionDef):
             raise AnalysisError(f"{ci.name}._openqasm_info: info function not found: {short(v)}")
-        ret = [c for c in calls_in(f) if call_attr(c) == "OpenQASMInfo"]
+        ret = [c for c in calls_in(f) if call_attr(c) == "OpenQASMInfo" or (isinstance(c.func, ast.Name) and c.func.id == "OpenQASMInfo")]
+        if not ret:
+            # the info is built by a shared helper: `return helper(<literals>, ...)` — judge the helper as it runs for this call
+            body = [b for b in f.body if not (isinstance(b, ast.Expr) and isinstance(b.value, ast.Constant))]
+            if len(body) == 1 and isinstance(body[0], ast.Return) and isinstance(body[0].value, ast.Call) and isinstance(body[0].value.func, ast.Name):
+                hf = oq.find(body[0].value.func.id)
+                if isinstance(hf, ast.FunctionDef):
+                    from ..core import specialise_call
+                    spec = specialise_call(hf, body[0].value)
+                    spec.name = f.name
+                    f = spec
+                    ret = [c for c in calls_in(f) if call_attr(c) == "OpenQASMInfo" or (isinstance(c.func, ast.Name) and c.func.id == "OpenQASMInfo")]
         if len(ret) != 1 or not ret[0].args or not isinstance(ret[0].args[0], ast.Constant):
             raise AnalysisError(f"{OQ}::{f.name}: OpenQASMInfo(<name literal>, ...) not found")
         mc = ret[0].args[4] if len(ret[0].args) > 4 else get_kw(ret[0], "multi_comp")
@@ -118,12 +129,14 @@ def rule_table_qasm(ctx: Ctx) -> None:
         if multi:
             # letters used after the `if (c==1)` in the usage template
             letters = set()
-            for s in [n for n in ast.walk(f) if isinstance(n, ast.Constant) and isinstance(n.value, str)]:
+            doc = {id(b.value) for x in ast.walk(f) if isinstance(x, (ast.FunctionDef, ast.Module)) for b in x.body[:1]
+                   if isinstance(b, ast.Expr) and isinstance(b.value, ast.Constant) and isinstance(b.value.value, str)}
+            for s in [n for n in ast.walk(f) if isinstance(n, ast.Constant) and isinstance(n.value, str) and id(n) not in doc]:
                 for mt in re.finditer(r"\)\s*([a-z])\s*$|\)\s*([a-z])\s+\{?", s.value):
                     letters.add(mt.group(1) or mt.group(2))
             if not letters:
                 raise AnalysisError(f"{OQ}::{f.name}: conditional gate letter not found in the usage template")
-            has_reset = any(isinstance(n, ast.Constant) and isinstance(n.value, str) and "reset" in n.value for n in ast.walk(f))
+            has_reset = any(isinstance(n, ast.Constant) and isinstance(n.value, str) and "reset" in n.value and id(n) not in doc for n in ast.walk(f))
             for g in sorted(letters):
                 key = f"classical reset {g}" if has_reset else f"classical {g}"
                 if reader.get(key) == cname:
